@@ -431,6 +431,28 @@ fn scenario(cx: &mut Ctx, rng: &mut Rng) {
                 let sc: Box<std::ops::Range<u32>> = Box::new(0..(k as u32));
                 same_it = same_it && bc.count() == sc.count();
             }
+            // a boxed iterator that is NOT fused (it yields again after a None): fusing the box, or using
+            // it through adaptors, gives what fusing the value gives
+            {
+                #[derive(Clone)]
+                struct Flaky(u32);
+                impl Iterator for Flaky {
+                    type Item = u32;
+                    fn next(&mut self) -> Option<u32> { self.0 += 1; if self.0 % 3 == 0 { None } else { Some(self.0) } }
+                }
+                let start = (x % 5) as u32;
+                let plain: Vec<Option<u32>> = { let mut f = Flaky(start).fuse(); (0..8).map(|_| f.next()).collect() };
+                let boxed: Vec<Option<u32>> = { let mut f = BBox::new_in(Flaky(start), cx.bump).fuse(); (0..8).map(|_| f.next()).collect() };
+                let stdb: Vec<Option<u32>> = { let mut f = Box::new(Flaky(start)).fuse(); (0..8).map(|_| f.next()).collect() };
+                let dynb: Vec<Option<u32>> = {
+                    let b: BBox<dyn Iterator<Item = u32>> = unsafe { let b = BBox::new_in(Flaky(start), cx.bump); BBox::from_raw(BBox::into_raw(b) as *mut dyn Iterator<Item = u32>) };
+                    let mut f = b.fuse(); (0..8).map(|_| f.next()).collect() };
+                let unfused_b: Vec<Option<u32>> = { let mut f = BBox::new_in(Flaky(start), cx.bump); (0..8).map(|_| f.next()).collect() };
+                let unfused_p: Vec<Option<u32>> = { let mut f = Flaky(start); (0..8).map(|_| f.next()).collect() };
+                let chained: Vec<u32> = BBox::new_in(Flaky(start), cx.bump).chain(5000..5002).take(6).collect();
+                let chained_p: Vec<u32> = Flaky(start).chain(5000..5002).take(6).collect();
+                same_it = same_it && plain == boxed && plain == stdb && plain == dynb && unfused_b == unfused_p && chained == chained_p;
+            }
             // Future: a boxed future is polled as the future itself is (same Pending/Ready sequence, same
             // number of polls reaching it); Default: the empty boxed slice and the empty boxed str
             {
